@@ -289,9 +289,21 @@ func MuxReaches(cfg *Cfg, p string) bool {
 
 // Serve runs one request through the chosen entry point of the real container.
 func Serve(c *restful.Container, cfg *Cfg, r SReq, led *Ledger) (res *Result) {
+	return serveImpl(c, cfg, r, led, true)
+}
+
+// ServeConcurrent is Serve without the global trace slot (the recover handler cannot be attributed)
+// and with a decision about the coding taken from the response itself.
+func ServeConcurrent(c *restful.Container, cfg *Cfg, r SReq, led *Ledger) (res *Result) {
+	return serveImpl(c, cfg, r, led, false)
+}
+
+func serveImpl(c *restful.Container, cfg *Cfg, r SReq, led *Ledger, sequential bool) (res *Result) {
 	t := &trace{}
-	currentTrace.set(t)
-	defer currentTrace.set(nil)
+	if sequential {
+		currentTrace.set(t)
+		defer currentTrace.set(nil)
+	}
 	hr := routing.HTTPRequest(r.Req)
 	switch r.Entry {
 	case "muxHandle", "serveHandle":
@@ -350,6 +362,11 @@ func Serve(c *restful.Container, cfg *Cfg, r SReq, led *Ledger) (res *Result) {
 	raw := rec.Body.Bytes()
 	res.Body, res.Complete = string(raw), true
 	res.Coded = res.Acq > 0
+	if !sequential {
+		// under concurrency the ledger delta is not this request's: the container added the coding
+		// iff the label differs from what was there on arrival
+		res.Coded = res.CE != r.Prior && (res.CE == "gzip" || res.CE == "deflate")
+	}
 	if res.Coded {
 		var rd io.Reader
 		var err error
